@@ -103,6 +103,39 @@ func c04Decode(c *core.Ctx, k *core.Case) {
 			c.Fail(k, "dispatch:"+def.Name, fmt.Sprintf("PlainNasDecode populated %v, header view %x, input header %x", names, hdr, b[:def.HeaderLen()]))
 		}
 	}
+	// The generated Decode<Msg> is an exported method of the body: calling it a second time on
+	// the SAME body value with another well-formed string must give, for the mandatory elements
+	// and for every optional element the second string carries, exactly what the table says
+	// (elements the second string lacks keep whatever they held: the decoder never clears them).
+	if entry == entryDirect && len(b) < 4096 {
+		r2 := prng.New(core.HashBytes(0x0404, b))
+		b2 := refcodec.RandomPlan(def, r2, 5, r2.Intn(5)).Bytes()
+		ref2 := refcodec.Decode(def, b2)
+		if dec := msgDecoder(obj, def.Name); dec != nil && ref2.OK && ref2.UnknownIDs == 0 && ref2.HalfOctetLookalike == 0 {
+			in2 := cloneB(b2)
+			c.Eval(1)
+			if err2 := dec(&in2); err2 != nil {
+				c.Fail(k, "reused-body-rejects:"+def.Name, fmt.Sprintf("Decode%s called a second time on the same value rejects a well-formed string: %v (first %s, second %s)", def.Name, err2, hx(b), hx(b2)))
+				return
+			}
+			// judge only what the second string carries
+			for si := range ref2.Fields {
+				if !def.Slots[si].Mandatory && !ref2.Fields[si].Present {
+					ref2.Fields[si].Present = elemPresent(obj, &def.Slots[si])
+					ref2.Fields[si].Skip = true
+				}
+			}
+			if slot, msg := cmpDecoded(def, obj, ref2); msg != "" {
+				c.Fail(k, fmt.Sprintf("reused-body-field-differs:%s.%s", def.Name, slot), fmt.Sprintf("%s.%s after a second Decode%s on the same value: %s (first %s, second %s)", def.Name, slot, def.Name, msg, hx(b), hx(b2)))
+			}
+		}
+	}
+}
+
+// elemPresent reports whether the optional element of slot sl is set in obj.
+func elemPresent(obj interface{}, sl *refcodec.Slot) bool {
+	_, present, err := slotElem(reflect.ValueOf(obj).Elem(), sl)
+	return err == nil && present
 }
 
 // oracle "encode": S=[msg] B=[well-formed plan bytes] I=[viaPlain]
@@ -333,7 +366,7 @@ func init() {
 			"domain = strings built from known identifiers; strings in which the reference decoder meets an unknown identifier octet (or a 0x0X type-1 look-alike) are counted and skipped here (C01/C03 still judge them)",
 			"dynamic half only: what the 90 generated functions do on the strings generated; no AST analysis (outside this technique)",
 		},
-		Oracles: map[string]func(*core.Ctx, *core.Case){"decode": c04Decode, "encode": c04Encode, "structure": c04Structure},
+		Oracles: map[string]func(*core.Ctx, *core.Case){"cold-concurrent": coldConcurrent, "decode": c04Decode, "encode": c04Encode, "structure": c04Structure},
 	}
 	p.Floors = func(tier string, cov map[string]map[string]int64, cnt map[string]int64) []string {
 		sp, err := codecSpec()
@@ -502,6 +535,7 @@ func init() {
 				c.NonTrivial(k.Hash())
 			}
 		})...)
+		us = append(us, coldUnit("nasMessage", "decode", "encode"))
 		return us
 	}
 	core.Register(p)
